@@ -223,8 +223,8 @@ def run_impl(cfg, workdir, sampler_hook=None, reuse=None, tag="run"):
     old_np = S._numpy
     old_time = S._time
     S._numpy = proxy
-    if "max_time" in cfg:
-        S._time = r.clock
+    if "max_time" in cfg or cfg.get("slow_calls"):
+        S._time = r.clock          # (slow_calls: the fault hooks of the probes advance this clock at every call of the user's code)
     try:
         with contextlib.redirect_stdout(io.StringIO()), numpy.errstate(all="ignore"):
             try:
